@@ -20,7 +20,10 @@
 (*                 "P" PUBLISH_ACTIVITY, pi = index recorded as published  *)
 (*   up      process of server n is running                                *)
 (*   lp      in-memory lastPublishedRaftIndex of server n (set by the FSM  *)
-(*           when a "P" entry is applied; NOT part of a snapshot)          *)
+(*           when a "P" entry is applied, and by the restore of a snapshot:*)
+(*           the snapshot carries the value as of its index - repair of    *)
+(*           finding C18-snapshot-loses-lastpublished; SnapCarriesLP =     *)
+(*           FALSE is the behaviour before the repair)                     *)
 (*   rs      index of the snapshot server n restored when its process      *)
 (*           started (0 = none): only entries behind it were re-applied    *)
 (*   snap    index of the newest snapshot on server n's disk               *)
@@ -44,7 +47,10 @@
 (***************************************************************************)
 EXTENDS Integers, Sequences, FiniteSets
 
-CONSTANTS Nodes
+CONSTANTS Nodes,
+          SnapCarriesLP   \* TRUE: the FSM snapshot carries lastPublishedRaftIndex (the code as repaired);
+                          \* FALSE: it does not (variant = the code before the repair: generator of
+                          \* directed scenarios and model of the revert mutant)
 
 VARIABLES rlog, up, lp, rs, snap, first, ctl, disp, blocked, pub, dead
 vars == <<rlog, up, lp, rs, snap, first, ctl, disp, blocked, pub, dead>>
@@ -106,13 +112,19 @@ DoControllerChange(n) ==
   /\ ctl' = n
   /\ UNCHANGED <<up, lp, rs, snap, first, blocked, pub, dead>>
 
+\* what the FSM of server n holds as lastPublished once it has applied the whole
+\* committed log: the value recorded by the last "P" entry.  A restarted FSM
+\* re-applies only the entries behind the snapshot it restored (rs[n]); the value
+\* recorded by entries covered by the snapshot comes with the snapshot.
+StartLP(n) == IF SnapCarriesLP THEN LP(rlog) ELSE LastP(rlog, rs[n])
+
 \* leadershipAcquired on server n: Barrier (the FSM has applied everything
 \* committed - but a restarted FSM re-applied only what is behind the snapshot
 \* it restored), BecomeLeader: create the activity stream if it does not exist,
 \* start the dispatcher from the in-memory lastPublished + 1.
 DoBecomeLeader(n) ==
   /\ up[n] /\ ctl = n /\ disp[n].st = "init"
-  /\ LET l == LastP(rlog, rs[n])
+  /\ LET l == StartLP(n)
      IN /\ rlog' = IF ActExists(rlog) THEN rlog ELSE Append(rlog, OpE("E", ActC))
         /\ lp' = [lp EXCEPT ![n] = l]
         /\ disp' = [disp EXCEPT ![n] = [st |-> "run", idx |-> l + 1, base |-> l, lost |-> FALSE]]
@@ -211,25 +223,29 @@ DoCrash(n) ==
   /\ blocked' = FALSE
   /\ UNCHANGED <<rlog, rs, snap, first, pub, dead>>
 
-\* restart over the same data directory: Raft restores the newest snapshot and
-\* re-applies only the entries behind it; lastPublished is not in the snapshot
+\* restart over the same data directory: Raft restores the newest snapshot
+\* (streams, groups, lastPublished as of the snapshot index) and re-applies only
+\* the entries behind it
 DoStart(n) ==
   /\ ~up[n]
   /\ up' = [up EXCEPT ![n] = TRUE]
   /\ rs' = [rs EXCEPT ![n] = snap[n]]
   /\ UNCHANGED <<rlog, lp, snap, first, ctl, disp, blocked, pub, dead>>
 
-\* Raft snapshot of the FSM on server n (streams and groups only), log store
-\* compacted up to `keep` trailing entries
+\* Raft snapshot of the FSM on server n (streams, groups, lastPublished), log
+\* store compacted up to `keep` trailing entries
 DoSnapshot(n, keep) ==
   /\ up[n] /\ Len(rlog) > snap[n]
   /\ snap' = [snap EXCEPT ![n] = Len(rlog)]
   /\ first' = [first EXCEPT ![n] = IF Len(rlog) - keep + 1 > @ THEN Len(rlog) - keep + 1 ELSE @]
   /\ UNCHANGED <<rlog, up, lp, rs, ctl, disp, blocked, pub, dead>>
 
-\* KNOWN DEFECT: the dispatcher starts below the first retained log entry
-\* (lastPublished was lost with the snapshot): store.GetLog fails, panic(err)
-\* kills the process.
+\* KNOWN LIMIT: the dispatcher starts below the first retained log entry:
+\* store.GetLog fails, panic(err) kills the process.  Before the repair that
+\* happened whenever lastPublished was lost with a snapshot; since the repair
+\* only when the log was compacted above the replicated lastPublished, i.e. a
+\* snapshot with fewer trailing logs than the backlog of unpublished operations
+\* (log compaction does not look at lastPublished).
 DoDispatchPanic(n) ==
   /\ Ready(n) /\ ~Present(n)
   /\ up' = [up EXCEPT ![n] = FALSE]
@@ -289,7 +305,16 @@ C18_ControllerDispatches == \A n \in Nodes : (ctl = n /\ up[n]) => disp[n].st # 
 \* interval)
 Pending == {i \in EligIds(rlog) : i \notin Ids(pub)}
 Idle(n) == up[n] /\ ctl = n /\ ~blocked /\ disp[n].st = "run" /\ ~disp[n].lost /\ disp[n].idx > Len(rlog)
-C18_IdleMeansPublished == \A n \in Nodes : (Idle(n) /\ rs[n] = 0) => Pending = {}
+C18_IdleMeansPublished == \A n \in Nodes : Idle(n) => Pending = {}
+
+\* Another cluster (own Raft log, own controller and dispatcher, another
+\* `clustering.namespace`) on the SAME NATS deployment commits an operation and
+\* publishes its event.  Every subject of a cluster carries its namespace, the
+\* activity subject included: nothing of this cluster changes - its activity
+\* stream lists the operations of THIS cluster's Raft log and nothing else
+\* (C18_IdContent), whoever else publishes.
+DoForeignPublish == UNCHANGED vars
+C18_ForeignIsolated == pub' = pub
 
 \* What DoDispatchPublish assumes of the configuration: the event is committed to the
 \* stream (acknowledged by every in-sync replica) when the publish returns; with an
